@@ -587,9 +587,20 @@ package leveldb
 // journal that takes over and the sequence number reached), so that a crash during recovery never loses synced
 // writes.
 //@ count decodeBatchToMem
-//@ func (*DB).recoverJournal
+//@ func (*sessionRecord).setJournalNum
 //@   props C04
 //@   mode bv
+//@   ensures recHas(p.hasRec, recJournalNum) && p.journalNum == num && recHas(p.hasRec, recSeqNum) == old(recHas(p.hasRec, recSeqNum)) && p.hasRec == (old(p.hasRec) | (1 << recJournalNum))
+//@   modifies p.hasRec, p.journalNum
+//@ func (*sessionRecord).setSeqNum
+//@   props C04
+//@   mode bv
+//@   ensures recHas(p.hasRec, recSeqNum) && p.seqNum == num && recHas(p.hasRec, recJournalNum) == old(recHas(p.hasRec, recJournalNum)) && p.hasRec == (old(p.hasRec) | (1 << recSeqNum))
+//@   modifies p.hasRec, p.seqNum
+//@ func (*DB).recoverJournal
+//@   props C04
+//@   at call (*session).markFileNum#1
+//@     assert [C04:highest-replayed-journal-number-is-retired] fds[len(fds)-1].Num < db.s.stNextFileNum
 //@   at before call (*session).commit#1
 //@     assert [C04:recovery-commit-carries-numbers] recHas(rec.hasRec, recJournalNum) && recHas(rec.hasRec, recSeqNum) && rec.journalNum == fd.Num && rec.seqNum == db.seq
 //@   at before call (*session).commit#2
@@ -619,3 +630,77 @@ package leveldb
 //@ func (*tWriter).finish
 //@   props C06
 //@   ensures [C06:records-first-and-last] err == nil ==> (f != nil && sameslice(f.imin, old(w.first)) && sameslice(f.imax, old(w.last)))
+
+// ---------------------------------------------------------------------------
+// Compaction output (C06, C03, C01). Ghost history of the merge: the user key (rank) and sequence number of the
+// entry examined before the current one, both valid ones.
+//@ ghost var gPrevOK bool
+//@ ghost var gPrevU key
+//@ ghost var gPrevSeq uint64
+//@ ghost var gCurOK bool
+//@ ghost var gCurU key
+//@ ghost var gCurSeq uint64
+//@ ghost var gBase bool
+//@ ghost var gSeen bool
+//@ ghost var gSeenPrev bool
+//@ func (*tableCompactionBuilder).run
+//@   props C06 C03 C01
+//@   abstract keys
+//@   safety off
+//@   at before stmt snapResumed := b.snapIter > 0
+//@     ghost gCurOK = false
+//@     ghost gSeen = false
+//@   at call parseInternalKey#1
+//@     ghost gPrevOK = gCurOK
+//@     ghost gPrevU = gCurU
+//@     ghost gPrevSeq = gCurSeq
+//@     ghost gCurOK = (ret3 == nil)
+//@     ghost gCurU = krank(ret0)
+//@     ghost gCurSeq = ret1
+//@     ghost gBase = false
+//@     ghost gSeenPrev = gSeen
+//@     ghost gSeen = true
+//@   at call (*compaction).baseLevelForKey#1
+//@     ghost gBase = result
+//@   requires b.minSeq < keyMaxSeq && (b.snapIter == 0 ==> !b.snapHasLastUkey)
+//@   loop 1
+//@     invariant [C01,C03,C06:last-key-is-the-previous-entry] gCurOK ==> (hasLastUkey && krank(lastUkey) == gCurU && lastSeq == gCurSeq)
+//@     invariant [C01,C03:fresh-key-has-no-newer-entry] (gSeen && !gCurOK) ==> (lastSeq == keyMaxSeq && !hasLastUkey)
+//@     invariant [C01,C03:nothing-before-the-first-entry] (!gSeen && b.snapIter == 0) ==> !hasLastUkey
+//@   at before stmt b.dropCnt++
+//@     assert [C01,C03:dropped-only-if-shadowed-or-obsolete-tombstone] (gSeenPrev || b.snapIter == 0) ==> ((gPrevOK && gPrevU == krank(ukey) && gPrevSeq <= b.minSeq) || (kt == keyTypeDel && seq <= b.minSeq && gBase))
+//@   at before call (*tableCompactionBuilder).flush#1
+//@     assert [C06:tables-cut-only-at-user-key-boundary] !gPrevOK || gPrevU != krank(ukey)
+
+// The key range of a set of tables covers every table of the set (it decides which tables of the next level a
+// compaction must take in, so that levels stay disjoint).
+//@ func (tFiles).getRange
+//@   props C01 C06
+//@   abstract keys
+//@   safety off
+//@   loop 1
+//@     invariant forall j int :: 0 <= j && j < rangeidx ==> (ikcmp(imin, tf[j].imin) <= 0 && ikcmp(imax, tf[j].imax) >= 0)
+//@   ensures [C01,C06:range-covers-every-table] forall j int :: 0 <= j && j < len(tf) ==> (ikcmp(imin, tf[j].imin) <= 0 && ikcmp(imax, tf[j].imax) >= 0)
+
+// A compaction that is retried after a storage error resumes from the cursor state saved at the last table
+// boundary; the saved state must be a copy, not an alias of the live cursors.
+//@ func (*compaction).save
+//@   props C08 C03 C01
+//@   safety off
+//@   requires !sameblock(c.snapTPtrs, c.tPtrs)
+//@   ensures [C01,C03,C08:snapshot-is-a-copy] c.snapTPtrs == old(c.tPtrs) && !sameblock(c.snapTPtrs, c.tPtrs) && sameslice(c.tPtrs, old(c.tPtrs))
+//@   ensures [C01,C03,C08:snapshot-scalars] c.snapGPI == c.gpi && c.snapSeenKey == c.seenKey && c.snapGPOverlappedBytes == c.gpOverlappedBytes
+//@ func (*compaction).restore
+//@   props C08 C03 C01
+//@   safety off
+//@   requires !sameblock(c.snapTPtrs, c.tPtrs)
+//@   ensures [C01,C03,C08:restored-from-the-copy] c.tPtrs == old(c.snapTPtrs) && !sameblock(c.snapTPtrs, c.tPtrs) && sameslice(c.snapTPtrs, old(c.snapTPtrs))
+//@   ensures [C01,C03,C08:restored-scalars] c.gpi == c.snapGPI && c.seenKey == c.snapSeenKey && c.gpOverlappedBytes == c.snapGPOverlappedBytes
+
+// File numbers of the journals found at recovery are never handed out again (a reused number would make the
+// recovery's own new journal the file that the end of recovery removes). The journals are replayed in ascending
+// number order (sortFds: trusted, and the filter loop keeps the order: not proved here), so retiring the number of
+// the last one retires them all.
+//@ func (*session).markFileNum
+//@   trusted
+//@   ensures s.stNextFileNum > num && s.stNextFileNum >= old(s.stNextFileNum)
